@@ -107,6 +107,48 @@ Definition term_update (u : uni) (md : tmodes) (e : tevent) : list Z :=
   | TOther => []
   end.
 
+(* ---------- the child's output: from BYTES to the mode state (term.go update) ---------- *)
+(* The PTY goroutine parses the child's output with the ANSI parser (model/Parser.v, property C02) and hands
+   every sequence to Model.update, which dispatches CSI to csi() and ESC to esc(); print, C0, OSC, DCS, APC
+   do not touch the input-related modes. *)
+Definition child_item (md : tmodes) (it : item) : option tmodes :=
+  match it with
+  | ICsi i ps f => child_csi md i ps f
+  | IEsc i f => Some (child_esc md i f)
+  | _ => Some md
+  end.
+
+Fixpoint child_items (its : list item) (md : tmodes) : option tmodes :=
+  match its with
+  | [] => Some md
+  | it :: t => match child_item md it with
+               | Some md' => child_items t md'
+               | None => None
+               end
+  end.
+
+(* the modes of a fresh emulator after the child has written [bs] *)
+Definition child_modes (bs : list Z) : option tmodes := child_items (parse_bytes bs) modes0.
+
+(* an event handed to the embedded terminal after the child has written [bs] *)
+Definition child_update (u : uni) (bs : list Z) (e : tevent) : option (list Z) :=
+  match child_modes bs with Some md => Some (term_update u md e) | None => None end.
+
+(* reading the requests off the parsed output (the first sub-parameter names the mode) *)
+Definition item_req (it : item) : option creq :=
+  match it with
+  | ICsi i ps f => if is_decpriv i && (f =? 104) then Some (QSet (heads ps))
+                   else if is_decpriv i && (f =? 108) then Some (QReset (heads ps))
+                   else None
+  | IEsc [] f => if f =? 61 then Some QKpam else if f =? 62 then Some QKpnm else if f =? 99 then Some QRis else None
+  | _ => None
+  end.
+Fixpoint reqs_of (its : list item) : list creq :=
+  match its with
+  | [] => []
+  | it :: t => match item_req it with Some r => r :: reqs_of t | None => reqs_of t end
+  end.
+
 (* ---------- the host's input pipeline (vaxis.go handleSequence) ---------- *)
 Inductive hevent :=
   | HKey (k : key)
@@ -344,19 +386,22 @@ Definition c13_key_mismatches (cases : list key_case) : list Z :=
        | None => false
        end) cases.
 
+(* the property on one observed key: [md] = the modes the child selected *)
+Definition key_violation (u : uni) (k : key) (md : tmodes) (bytes : list Z) (evs : option (list hevent)) : bool :=
+  negb (cursor_mode_ok k (m_decckm md) bytes)
+  || (mods_in_scope k && negb (ctrl_code_ok k bytes))
+  || (mods_in_scope k && chord_text k && match evs with Some evs => negb (textchord_ok u k evs) | None => true end)
+  || (xterm_expressible u k &&
+      match evs with
+      | Some evs => negb (roundtrip_ok u k evs)
+                    || ((chord_plain k || chord_shift u k) && negb (text_ok k evs))
+      | None => true
+      end).
+
 Definition c13_key_violations (cases : list key_case) : list Z :=
   bad_indices (fun c =>
     let '(t, segs, ops, k, pause, md, bytes, evs) := c in
-    let u := uni_of t in
-    negb (cursor_mode_ok k (m_decckm md) bytes)
-    || (mods_in_scope k && negb (ctrl_code_ok k bytes))
-    || (mods_in_scope k && chord_text k && match evs with Some evs => negb (textchord_ok u k evs) | None => true end)
-    || (xterm_expressible u k &&
-        match evs with
-        | Some evs => negb (roundtrip_ok u k evs)
-                      || ((chord_plain k || chord_shift u k) && negb (text_ok k evs))
-        | None => true
-        end)) cases.
+    key_violation (uni_of t) k md bytes evs) cases.
 
 (* mouse / paste stream: (ops, event, modes snapshot, bytes written, events read back (None = not re-read)) *)
 Definition mouse_case := (list modeop * tevent * tmodes * list Z * option (list hevent))%type.
@@ -376,32 +421,71 @@ Definition c13_mouse_mismatches (cases : list mouse_case) : list Z :=
 
 Definition in_i63 (x : Z) : bool := (0 <=? x) && (x <? 9223372036854775807).
 
+(* the property on one observed mouse event / paste boundary: [md] = the modes the child selected *)
+Definition event_violation (md : tmodes) (e : tevent) (bytes : list Z) (evs : option (list hevent)) : bool :=
+  match e with
+  | TMouse m =>
+      if negb ((ms_type m =? EventPress) || (ms_type m =? EventRelease) || (ms_type m =? EventMotion)) then false
+      else if mouse_enabled md m then
+        (* enabled and SGR: the same button, position and type arrive *)
+        m_sgr md && button_ok (ms_button m) && in_i63 (ms_col m) && in_i63 (ms_row m) &&
+        match evs with
+        | Some [HMouse m'] =>
+            negb ((ms_button m' =? ms_button m) && (ms_col m' =? ms_col m) && (ms_row m' =? ms_row m)
+                  && (ms_type m' =? ms_type m))
+        | _ => true
+        end
+      else if altscroll_applies md m then
+        negb (zlist_eqb bytes (if ms_button m =? MouseWheelUp then ss3_up ++ ss3_up ++ ss3_up
+                               else ss3_down ++ ss3_down ++ ss3_down))
+      else negb (zlist_eqb bytes [])
+  | TPasteStart =>
+      if m_paste md then negb (match evs with Some [HPasteStart] => true | _ => false end)
+      else negb (zlist_eqb bytes [])
+  | TPasteEnd =>
+      if m_paste md then negb (match evs with Some [HPasteEnd] => true | _ => false end)
+      else negb (zlist_eqb bytes [])
+  | _ => false
+  end.
+
 Definition c13_mouse_violations (cases : list mouse_case) : list Z :=
+  bad_indices (fun c => let '(ops, e, md, bytes, evs) := c in event_violation md e bytes evs) cases.
+
+(* child stream: (the mode requests the generator put into the child's output, the child's output (bytes),
+                  event, pause, the emulator's DECRQM replies for [reported_modes], bytes written for the
+                  event, events read back by a real Vaxis (None = not re-read)).
+   Mismatches: the model reads the same requests out of the bytes (parser of C02), predicts the DECRQM
+   replies and the bytes written, and the host model the events read back.
+   Violations are decided from the REQUESTS, not from the emulator's mode state: the modes the child asked for
+   (its last word on each mode) against what was written and what arrived. *)
+Definition child_case := (list creq * list Z * tevent * bool * list Z * list Z * option (list hevent))%type.
+
+Definition c13_child_mismatches (cases : list child_case) : list Z :=
   bad_indices (fun c =>
-    let '(ops, e, md, bytes, evs) := c in
+    let '(reqs, out, e, pause, report, bytes, evs) := c in
+    let its := parse_bytes out in
+    negb (list_eqb creq_eqb (reqs_of its) reqs)
+    || match e with TKey k => negb (key_covered [] k bytes) | _ => false end
+    || match child_items its modes0 with
+       | None => true
+       | Some md => negb (zlist_eqb (mode_report md) report)
+                    || negb (zlist_eqb (term_update ascii_uni md e) bytes)
+       end
+    || match evs with
+       | Some evs => match host_read_marked ascii_uni (seg_of []) pause bytes with
+                     | Some m => negb (hevents_eqb m evs)
+                     | None => true
+                     end
+       | None => false
+       end) cases.
+
+Definition c13_child_violations (cases : list child_case) : list Z :=
+  bad_indices (fun c =>
+    let '(reqs, out, e, pause, report, bytes, evs) := c in
+    let md := asked reqs in
     match e with
-    | TMouse m =>
-        if negb ((ms_type m =? EventPress) || (ms_type m =? EventRelease) || (ms_type m =? EventMotion)) then false
-        else if mouse_enabled md m then
-          (* enabled and SGR: the same button, position and type arrive *)
-          m_sgr md && button_ok (ms_button m) && in_i63 (ms_col m) && in_i63 (ms_row m) &&
-          match evs with
-          | Some [HMouse m'] =>
-              negb ((ms_button m' =? ms_button m) && (ms_col m' =? ms_col m) && (ms_row m' =? ms_row m)
-                    && (ms_type m' =? ms_type m))
-          | _ => true
-          end
-        else if altscroll_applies md m then
-          negb (zlist_eqb bytes (if ms_button m =? MouseWheelUp then ss3_up ++ ss3_up ++ ss3_up
-                                 else ss3_down ++ ss3_down ++ ss3_down))
-        else negb (zlist_eqb bytes [])
-    | TPasteStart =>
-        if m_paste md then negb (match evs with Some [HPasteStart] => true | _ => false end)
-        else negb (zlist_eqb bytes [])
-    | TPasteEnd =>
-        if m_paste md then negb (match evs with Some [HPasteEnd] => true | _ => false end)
-        else negb (zlist_eqb bytes [])
-    | _ => false
+    | TKey k => key_violation ascii_uni k md bytes evs
+    | _ => event_violation md e bytes evs
     end) cases.
 
 (* keypad stream: (oracle table, key, DECCKM, bytes written under DECKPNM, bytes written under DECKPAM).
